@@ -493,6 +493,11 @@ class SSETransport(Transport):
                             await self._route_incoming_message(error_response)
                         except asyncio.CancelledError:
                             logger.debug(f"Request {message_id} was cancelled")
+                            current = asyncio.current_task()
+                            if current is not None and current.cancelling():
+                                # Not the request's future but this task is being
+                                # cancelled (transport shutting down): let it end
+                                raise
                     else:
                         # Unexpected status
                         logger.warning(
